@@ -55,6 +55,46 @@ impl U for En {
     fn veq(&self, o: &Self) -> bool { self == o }
 }
 
+/// enums whose discriminants are only partly declared: the value Rust gives a
+/// variant (previous + 1) then differs from its position, and a declared value
+/// can equal the position of another variant
+#[derive(Debug, Clone, Copy, PartialEq, Eq, Hash, PartialOrd, Ord, Encode, Decode, StableHash, Identifiable)]
+pub enum EnDisc {
+    Low = 1,
+    Mid,
+    High,
+    Top = 0,
+}
+impl U for EnDisc {
+    fn mk(t: &mut Tape<'_>, _d: u32) -> Self { [Self::Low, Self::Mid, Self::High, Self::Top][t.idx(4)] }
+    fn veq(&self, o: &Self) -> bool { self == o }
+}
+#[derive(Debug, Clone, PartialEq, Eq, Hash, PartialOrd, Ord, Encode, Decode, StableHash, Identifiable)]
+#[repr(u8)]
+pub enum EnDiscP {
+    Nop,
+    Push(u32) = 2,
+    Pop(u32),
+    Jump { to: u8 } = 1,
+    Call(u32, u8) = 9,
+}
+impl U for EnDiscP {
+    fn mk(t: &mut Tape<'_>, d: u32) -> Self {
+        // small payload domain: equal payloads under different variants are
+        // what a missing or wrong variant tag confuses
+        let p = [0u32, 1, 2, 7][t.idx(4)];
+        let _ = d;
+        match t.idx(5) {
+            0 => Self::Nop,
+            1 => Self::Push(p),
+            2 => Self::Pop(p),
+            3 => Self::Jump { to: p as u8 },
+            _ => Self::Call(p, p as u8),
+        }
+    }
+    fn veq(&self, o: &Self) -> bool { self == o }
+}
+
 #[derive(Debug, Clone, PartialEq, Encode, Decode, StableHash, Identifiable)]
 pub struct Gen<T, V> {
     pub t: T,
@@ -220,6 +260,11 @@ pub fn register(r: &mut Vec<Entry>) {
     e_all!(r, (derived::En, derived::En));
     e_all!(r, derived::m1::Same);
     e_all!(r, derived::m2::Same);
+    e_all!(r, derived::EnDisc);
+    e_all!(r, derived::EnDiscP);
+    e_all!(r, Vec<derived::EnDisc>);
+    e_all!(r, (derived::EnDiscP, derived::EnDisc));
+    e_all!(r, Option<derived::EnDiscP>);
     e_ser!(r, derived::WithSkip);
     e_ser!(r, derived::EnSkip);
     e_ser!(r, Vec<derived::WithSkip>);
